@@ -52,6 +52,10 @@ class GotranCCodePrinter(C99CodePrinter):
     def _print_Float(self, flt):
         return self._print(str(float(flt)))
 
+    def _print_Abs(self, expr):
+        # All variables are doubles, also those with integer values
+        return f"fabs({self._print(expr.args[0])})"
+
     def _print_Piecewise(self, expr):
         if isinstance(expr.args[0][0], Assignment):
             result = []
